@@ -216,6 +216,7 @@ func init() {
 			c.ruleNarrowGuard("E5.narrow-guard", []string{"pkg/packet/bgp"}, 3)
 			c.ruleLoopProgress("E5.loop-progress", []string{"pkg/packet/bgp"}, 30)
 			c.ruleParseExactBody("E6.exact-body")
+			c.ruleDecodedNonNil("E3.decoded-non-nil", []string{"pkg/packet/bgp"}, 6)
 		},
 	})
 	register(&Check{
